@@ -124,6 +124,12 @@ var targets = []target{
 			{"leaf_Index", ty{k: kInt}}, {"currentChildHash", hashT},
 			{"t_lastLeftCache", ty{k: kList, sub: []ty{hashT}}}, {"t_zeroHashes", ty{k: kList, sub: []ty{hashT}}},
 			{"newNodes", ty{k: kList, sub: []ty{{k: kStruct, name: "TreeNode"}}}}}}}},
+	{File: "tree/updatabletree.go", Out: "GenUpdatableTree.v", Module: "tree/updatabletree.go (hashing loop of UpsertLeaf)",
+		Hash: true, Structs: []string{"TreeNode"}, StructsFrom: map[string]string{"TreeNode": "tree/types/types.go"},
+		Consts: map[string]string{"types.DefaultHeight": "tree/types/types.go"},
+		Regions: []region{{Func: "UpdatableTree.UpsertLeaf", Name: "UpsertLeaf_loop", Params: []param{
+			{"leaf_Index", ty{k: kInt}}, {"currentChildHash", hashT}, {"siblings", ty{k: kList, sub: []ty{hashT}}},
+			{"newNodes", ty{k: kList, sub: []ty{{k: kStruct, name: "TreeNode"}}}}}}}},
 	{File: "aggsender/types/block_range.go", Out: "GenBlockRange.v", Module: "aggsender/types/block_range.go",
 		Structs: []string{"BlockRange"},
 		Funcs:   []string{"getBlockMinusOne", "BlockRange.CountBlocks", "BlockRange.IsEmpty", "BlockRange.Gap"}},
